@@ -550,7 +550,10 @@ class PathUnit:
     every feasible path through the real code is executed symbolically; z3 decides branch feasibility and obligations"""
     kind = "path"
 
-    def __init__(self, name, src, entries, defines=(), assumptions=(), stubs=(), native_defines=(), clang_flags=(), opaque=(), validate=True, glibcxx_assertions=True):
+    def __init__(self, name, src, entries, defines=(), assumptions=(), stubs=(), native_defines=(), clang_flags=(), opaque=(), validate=True, glibcxx_assertions=True,
+                 tolerate=(), replay_repeat=1):
+        self.tolerate = list(tolerate)
+        self.replay_repeat = replay_repeat
         self.name, self.src, self.entries = name, src, entries
         self.defines = list(defines) + (["_GLIBCXX_ASSERTIONS"] if glibcxx_assertions else [])
         self.assumptions = list(assumptions)
@@ -637,6 +640,10 @@ class PathUnit:
             cmd = [sys.executable, os.path.join(HERE, "llpath.py"), ll, e.name, "--support", self.support_ll, "--json", out, "--wall", str(e.wall), "--max-steps", str(e.max_steps), "--max-paths", str(e.max_paths)]
             if opq:
                 cmd += ["--opaque", opq]
+            if self.tolerate:
+                tf = base + ".tolerate"
+                open(tf, "w").write("\n".join(self.tolerate) + "\n")
+                cmd += ["--tolerate", tf]
             futs.append((e, out, pool.submit(run, cmd, e.wall + 120)))
         vfs = []
         if self.validate:
@@ -699,9 +706,12 @@ class PathUnit:
                 rep_ok = None
                 last = None
                 for o in items[:4]:
-                    verdict, what, rf = replay_native(var, e, o.get("inputs", []), work, "%d" % (hash(o["label"]) & 0xffffff))
-                    rep.replayed += 1
-                    last = (verdict, what)
+                    for attempt in range(self.replay_repeat):
+                        verdict, what, rf = replay_native(var, e, o.get("inputs", []), work, "%d" % (hash(o["label"]) & 0xffffff))
+                        rep.replayed += 1
+                        last = (verdict, what)
+                        if verdict == "reproduced":
+                            break
                     if verdict == "reproduced":
                         rep_ok = (o, what, rf)
                         break
